@@ -132,7 +132,7 @@ def run(env, rep):
         "peer window, and the other branch has counter < window (both edges of the guarding switch are checked, so > instead of >= "
         "fails); R2 its sequence_number is that updated counter; R3 the counter is 0 on every edge leaving the acknowledgement branch "
         "and keeps the sum otherwise; R4 nothing else in the crate writes the counter, and the window is written only from the size "
-        "of a received WindowAcknowledgement; R5 the two sessions yield the same abstract summary; R6 the accumulation cannot overflow "
+        "of a received WindowAcknowledgement, every function that stores the window stores it on every normal path (no announcement is ignored), and Acknowledgement messages are built only by handle_input's accounting or helpers nothing else calls; R5 the two sessions yield the same abstract summary; R6 the accumulation cannot overflow "
         "(today a known finding).  Not decided: the accounting identity over all call-size sequences (follows by induction over calls).")
     r = {}
     for which in ("server", "client"):
@@ -202,6 +202,71 @@ def run(env, rep):
                             prov = False
         rep.check("C17.R4", "%s|window-writers" % which, okw and prov, "the window is only set to Some(size) of a received WindowAcknowledgement (%s)" % [w[0].split("::")[-1] for w in ww],
                   "%s is written by %s (value is Some(parameter): %s; argument is the WindowAcknowledgement size: %s)" % (WINDOW, [w[0] for w in ww], [w[1] for w in ww], prov))
+    # ---- R4 (continued): every announced window is adopted, and acknowledgements come from the accounting alone
+    from .. import grammar as _g
+    for which in ("server", "client"):
+        ty = "sessions::%s::%sSession" % (which, which.capitalize())
+        hi = body_by_pretty(prog, ty + "::handle_input")
+        if hi is None:
+            continue
+        # (i) a function that stores the window stores it on every path on which it returns normally: an announcement is never
+        # ignored (whatever message stream it arrived on - the peer counts from it in any case)
+        for b in prog.bodies.values():
+            if b.kind != "assoc" or not b.impl or b.impl.get("self_ty") != ty or b.key == hi.key:
+                continue
+            stores = any(isinstance(st["place"]["p"][-1] if st["place"]["p"] else None, dict) and st["place"]["p"][-1].get("n") == WINDOW
+                         for blk in b.blocks if not blk["cleanup"] for st in blk["stmts"])
+            if not stores:
+                continue
+            ex = _g.trace(env, b.key, "r")
+            skipped = []
+            n_ok = 0
+            for p in ex.paths:
+                if not p or p[-1][0] != "end" or p[-1][1] == "err":
+                    continue
+                rets = [t for t in p if t[0] == "returns"]
+                if rets and str(rets[-1][1]).startswith("Err("):
+                    continue
+                n_ok += 1
+                if not any(t[0] == "store" and t[1] == WINDOW for t in p):
+                    skipped.append(" ".join(_g.fmt_tok(t) for t in p if t[0] == "when")[:160])
+            rep.check("C17.R4", "%s|every-announced-window-is-adopted:%s" % (which, b.pretty.split("::")[-1]), n_ok >= 1 and not skipped and not ex.truncated,
+                      "%s stores the announced window on every normal path (%d)" % (b.pretty.split("::")[-1], n_ok),
+                      "%s returns normally without adopting the announced window on the path [%s]: the peer waits for acknowledgements the session never sends" % (b.pretty, skipped[:1]), b.span)
+        # (ii) an Acknowledgement message is built only by handle_input or by helpers that nothing else calls
+        builders = []
+        for b in prog.bodies.values():
+            if ("sessions::%s::" % which) not in b.pretty or b.kind == "promoted":
+                continue
+            for blk in b.blocks:
+                if blk["cleanup"]:
+                    continue
+                for st in blk["stmts"]:
+                    rv = st["rv"]
+                    if rv["k"] == "agg" and rv.get("ak") == "adt" and str(rv.get("adt", "")).endswith("messages::RtmpMessage") and rv.get("variant") == "Acknowledgement":
+                        builders.append(b)
+        stray = []
+        for b in {x.key: x for x in builders}.values():
+            seen, stack = set(), [b.key]
+            while stack:
+                k = stack.pop()
+                if k in seen or k == hi.key:
+                    continue
+                seen.add(k)
+                cs = [c for c in prog.callers.get(k, ()) if c in prog.bodies and prog.bodies[c].kind != "promoted"]
+                kb = prog.bodies[k]
+                if kb.kind == "closure" and kb.parent:
+                    cs.append(kb.parent)
+                if not cs and k != b.key or (not cs and kb.is_pub):
+                    stray.append("%s (reachable without handle_input)" % kb.pretty)
+                for c in cs:
+                    cb = prog.bodies[c]
+                    if cb.key != hi.key and cb.pretty.split("::")[-1].startswith("handle_") and cb.key != b.key:
+                        stray.append("%s is reached from %s" % (b.pretty.split("::")[-1], cb.pretty.split("::")[-1]))
+                    stack.append(c)
+        rep.check("C17.R4", "%s|acknowledgements-built-only-by-the-accounting" % which, bool(builders) and not stray,
+                  "Acknowledgement messages are built only by handle_input's accounting (%s)" % sorted({b.pretty.split("::")[-1] for b in builders}),
+                  "an Acknowledgement is also sent outside the byte accounting of handle_input: %s - bytes would be acknowledged twice (the counter is reset only there)" % ("; ".join(sorted(set(stray))[:2]) or "no construction site found"), hi.span)
     # ---- R5 sibling agreement
     if r["server"] and r["client"]:
         a = {k: v for k, v in r["server"].items() if k not in ("which", "followed")}
